@@ -7,4 +7,5 @@ Extraction "c02_model.ml"
   c02_zp c02_solve_aliased c02_solve_dflt c02_invert_dflt c02_determinant_dflt c02_call_invert c02_solve_chk c02_invert_chk c02_solve c02_invert c02_determinant c02_help_invert
   c02_diag_solve c02_diag_invert c02_diag_det c02_diag_dense
   c02_lu c02_ElimPivot
+  c02_q c02_scale2 c02_scalev
   c02_spec_mulmv c02_spec_mulmm c02_spec_id c02_spec_det.
